@@ -765,3 +765,45 @@ pub fn schedules_for(run_seed: u64, n: usize, est_steps: u32) -> Vec<SchedSpec> 
     }
     v
 }
+
+/// Real OS threads, no seams, no faults: does the scenario complete and agree with
+/// its references when the threads are scheduled by the operating system? Used only to
+/// tell a real deadlock from an artifact of running blocking `std` primitives under
+/// coroutines (a lock held across a simulated scheduling point blocks the one OS thread).
+pub fn run_real_threads(sc: &Scenario) -> Vec<Violation> {
+    let rp = reference_phase(sc);
+    let env = rp.env.clone();
+    let mut out = rp.violations.clone();
+    let results: Vec<Vec<(String, Option<String>)>> = std::thread::scope(|scope| {
+        let mut hs = Vec::new();
+        for ops in &env.sc.threads {
+            let env = env.clone();
+            hs.push(scope.spawn(move || {
+                let mut v = Vec::new();
+                for op in ops {
+                    let mut clean = op.clone();
+                    clean.faults.clear();
+                    let o = perform(&env.parsers[op.parser], &env.sc.inputs[op.input], &clean, false, 0);
+                    let fp = match o.outcome {
+                        Outcome::Done(s) => Some(s),
+                        Outcome::Unwound => None,
+                    };
+                    v.push((full_key(&env.sc, &clean), fp));
+                }
+                v
+            }));
+        }
+        hs.into_iter().map(|h| h.join().unwrap_or_default()).collect()
+    });
+    for (key, fp) in results.into_iter().flatten() {
+        if key.contains("\"take\"") {
+            continue;
+        }
+        if let (Some(fp), Some(reference)) = (fp, env.refs.get(&key)) {
+            if *reference != fp {
+                out.push(Violation { class: "mismatch".into(), key: key.clone(), phase: "real-threads".into(), detail: first_diff(reference, &fp) });
+            }
+        }
+    }
+    out
+}
